@@ -199,6 +199,8 @@ func stepClass(op vos.Op) string {
 		base = "yeardir"
 	case len(base) == 2:
 		base = "monthdir"
+	case len(base) >= 2 && base[0] == 'd' && strings.Trim(base[1:], "0123456789") == "":
+		base = "dbroot" // scratch directories are numbered per process: not part of a label that must replay in another process
 	}
 	if op.Path2 != "" {
 		b2 := filepath.Base(op.Path2)
